@@ -31,43 +31,39 @@ theorem call_depends_on_arguments_only (funcs : List Func) (depth fuel : Nat) (n
     (s s1 : St) (f : Func) (vals : List Val)
     (hf : funcs.find? (fun f => f.name == name && f.params.length == args.length) = some f)
     (hd : (depth == Gen.RECURSION_LIMIT) = false)
-    (ha : evalArgs funcs depth fuel args (takeCtx f s) = (.ok vals, s1)) :
+    (ha : evalArgs funcs depth fuel args s = (.ok vals, s1)) :
     callFunc funcs depth (fuel + 1) name args s =
-      finishCall f s1 (execBlock funcs (depth + 1) fuel f.body f.catches (calleeInit f vals (cacheTake s.ctxCache f.key).1 s1)) :=
+      finishCall s1 (execBlock funcs (depth + 1) fuel f.body f.catches (calleeInit f vals s1)) :=
   callFunc_unfold funcs depth fuel name args s s1 f vals hf hd ha
 
 /-- The caller's variables, saved return value and error record are not touched by a call, whatever the callee does. -/
-theorem caller_untouched (f : Func) (caller : St) (r : Res Flow × St) :
-    (finishCall f caller r).2.vars = caller.vars ∧ (finishCall f caller r).2.returned = caller.returned ∧
-    (finishCall f caller r).2.lastErr = caller.lastErr := by
+theorem caller_untouched (caller : St) (r : Res Flow × St) :
+    (finishCall caller r).2.vars = caller.vars ∧ (finishCall caller r).2.returned = caller.returned ∧
+    (finishCall caller r).2.lastErr = caller.lastErr := by
   unfold finishCall
   cases r.1 <;> simp
 
 /-- The callee's initial variables do not depend on the caller's variables (nor on any earlier call). -/
-theorem callee_start_independent (f : Func) (vals : List Val) (r1 r2 : LastErr) (c1 c2 : St) :
-    (calleeInit f vals r1 c1).vars = (calleeInit f vals r2 c2).vars ∧ (calleeInit f vals r1 c1).returned = none := by
+theorem callee_start_independent (f : Func) (vals : List Val) (c1 c2 : St) :
+    (calleeInit f vals c1).vars = (calleeInit f vals c2).vars ∧ (calleeInit f vals c1).returned = none ∧
+    (calleeInit f vals c1).lastErr = LastErr.clear := by
   simp [calleeInit]
 
-/-- A failed argument evaluation fails the call before the callee's body runs: the context that `createEnv` had checked out
-of the function's cache goes back to it unused (with the record it had), nothing else of the state the failing argument left changes. -/
+/-- A failed argument evaluation fails the call before any callee context is used. -/
 theorem failing_argument_fails_call (funcs : List Func) (depth fuel : Nat) (name : String) (args : List Expr)
     (s s1 : St) (f : Func) (c : Nat) (a : Bytes)
     (hf : funcs.find? (fun f => f.name == name && f.params.length == args.length) = some f)
     (hd : (depth == Gen.RECURSION_LIMIT) = false)
-    (ha : evalArgs funcs depth fuel args (takeCtx f s) = (.err c a, s1)) :
-    callFunc funcs depth (fuel + 1) name args s =
-      (.err c a, { s1 with ctxCache := cachePut s1.ctxCache f.key (cacheTake s.ctxCache f.key).1 }) :=
+    (ha : evalArgs funcs depth fuel args s = (.err c a, s1)) :
+    callFunc funcs depth (fuel + 1) name args s = (.err c a, s1) :=
   callFunc_arg_error funcs depth fuel name args s s1 f c a hf hd ha
 
-
-
-/-- The callee's start state is a function of the function, the argument values, the error record of the cached context the
-call got (`rec0`), and the caller's output stream, work budget and function-context caches (the three process-wide parts of the
-state) — of nothing else of the caller (no variable, no saved return value, no running loop, not the caller's own error record). -/
-theorem calleeInit_congr (f : Func) (vals : List Val) (rec0 : LastErr) (c1 c2 : St) (ho : c1.out = c2.out) (hb : c1.budget = c2.budget)
-    (hk : c1.ctxCache = c2.ctxCache) :
-    calleeInit f vals rec0 c1 = calleeInit f vals rec0 c2 := by
-  simp [calleeInit, ho, hb, hk]
+/-- The callee's start state is a function of the function, the argument values, and the caller's output stream and work
+budget — of nothing else of the caller (no variable, no saved return value, no running loop, no error record) and of no earlier call
+(its error record is clear: `createEnv` resets it in a recycled context, repo e310d98). -/
+theorem calleeInit_congr (f : Func) (vals : List Val) (c1 c2 : St) (ho : c1.out = c2.out) (hb : c1.budget = c2.budget) :
+    calleeInit f vals c1 = calleeInit f vals c2 := by
+  simp [calleeInit, ho, hb]
 
 /-- Literal arguments evaluate to their values and leave the state alone (fuel above their number). -/
 theorem evalArgs_lits (funcs : List Func) (depth : Nat) : ∀ (vals : List Val) (fuel : Nat) (s : St), vals.length < fuel →
@@ -88,57 +84,59 @@ theorem evalArgs_lits (funcs : List Func) (depth : Nat) : ∀ (vals : List Val) 
         have := ih (k' + 1) s (by simp at h; omega)
         simp only [List.map_cons, evalArgs, bind_app, eval_lit, this, pure_app]
 
-/- FULL STATEMENT (C08: "the result depends on the argument values alone, never on earlier calls"), as it stood before the
-   error record was modelled:
-     theorem call_independent_of_caller … (ha : evalArgs … args c = (.ok vals, c1)) (ha' : evalArgs … args' c' = (.ok vals, c1'))
-        (ho : c1.out = c1'.out) (hb : c1.budget = c1'.budget) : same outcome ∧ same output ∧ same budget
-   It is FALSE for the code: `createEnv` recycles the callee's context without clearing its `_last_error`, and `error` reads it —
-   see `call_depends_on_earlier_failed_call` below (negation at a witness, confirmed on the library; finding
-   C08.error_record_survives_in_cached_context). What is proved is the statement with the missing hypothesis made explicit: the
-   two calls get cached contexts with the same error record (`hrec`) and run with the same caches (`hk`). -/
-/-- **The callee cannot read the caller's variables; the result depends on the caller only through output, budget and the cached
-function contexts' error records.** Full `callFunc`, argument evaluation included: two calls of the same function name from two
-ARBITRARY caller states (different variables, different loops running, different saved return values, different error records of
-their own) whose argument expressions evaluate to the same values, with the same printed output, remaining budget and function
-caches, have the same outcome (value, or error, or hazard), print the same, use the same budget and leave the same caches. -/
-theorem call_independent_of_caller_partial (funcs : List Func) (depth fuel : Nat) (name : String) (args args' : List Expr)
+/-- **The callee cannot read the caller's variables; the result depends on the caller only through output and budget — never on
+earlier calls.** Full `callFunc`, argument evaluation included: two calls of the same function name from two ARBITRARY caller states
+(different variables, different loops running, different saved return values, different error records, any earlier calls — failed
+ones included — behind them) whose argument expressions evaluate to the same values, with the same printed output and remaining
+budget, have the same outcome (value, or error, or hazard), print the same, and use the same budget. (With the error record of
+recycled contexts this was false before repo e310d98: finding C08.error_record_survives_in_cached_context, fixed; regression
+witness `history_witness_fixed`.) -/
+theorem call_independent_of_caller (funcs : List Func) (depth fuel : Nat) (name : String) (args args' : List Expr)
     (c c1 c' c1' : St) (f : Func) (vals : List Val)
     (hf : funcs.find? (fun f => f.name == name && f.params.length == args.length) = some f)
     (hlen : args'.length = args.length) (hd : (depth == Gen.RECURSION_LIMIT) = false)
-    (ha : evalArgs funcs depth fuel args (takeCtx f c) = (.ok vals, c1))
-    (ha' : evalArgs funcs depth fuel args' (takeCtx f c') = (.ok vals, c1'))
-    (ho : c1.out = c1'.out) (hb : c1.budget = c1'.budget)
-    (hrec : (cacheTake c.ctxCache f.key).1 = (cacheTake c'.ctxCache f.key).1) (hk : c1.ctxCache = c1'.ctxCache) :
+    (ha : evalArgs funcs depth fuel args c = (.ok vals, c1))
+    (ha' : evalArgs funcs depth fuel args' c' = (.ok vals, c1'))
+    (ho : c1.out = c1'.out) (hb : c1.budget = c1'.budget) :
     (callFunc funcs depth (fuel + 1) name args c).1 = (callFunc funcs depth (fuel + 1) name args' c').1 ∧
     (callFunc funcs depth (fuel + 1) name args c).2.out = (callFunc funcs depth (fuel + 1) name args' c').2.out ∧
-    (callFunc funcs depth (fuel + 1) name args c).2.budget = (callFunc funcs depth (fuel + 1) name args' c').2.budget ∧
-    (callFunc funcs depth (fuel + 1) name args c).2.ctxCache = (callFunc funcs depth (fuel + 1) name args' c').2.ctxCache := by
+    (callFunc funcs depth (fuel + 1) name args c).2.budget = (callFunc funcs depth (fuel + 1) name args' c').2.budget := by
   have hf' : funcs.find? (fun f => f.name == name && f.params.length == args'.length) = some f := by rw [hlen]; exact hf
   have hd' := hd
   rw [callFunc_unfold funcs depth fuel name args c c1 f vals hf hd' ha,
       callFunc_unfold funcs depth fuel name args' c' c1' f vals hf' hd' ha',
-      hrec, calleeInit_congr f vals _ c1 c1' ho hb hk]
-  generalize execBlock funcs (depth + 1) fuel f.body f.catches (calleeInit f vals _ c1') = r
+      calleeInit_congr f vals c1 c1' ho hb]
+  generalize execBlock funcs (depth + 1) fuel f.body f.catches (calleeInit f vals c1') = r
   unfold finishCall
-  cases r.1 <;> exact ⟨rfl, rfl, rfl, rfl⟩
+  cases r.1 <;> exact ⟨rfl, rfl, rfl⟩
 
-/-- **A call is a function of its argument values and of the error records of the cached function contexts**: called with the same
-argument values (here: literals) from two arbitrary caller states that agree on printed output, remaining budget and the functions'
-context caches, a function returns the same, prints the same and costs the same — whatever the callers' variables, loops and own error
-records are. (`funcs` is immutable and `calleeInit` builds variables and symbols afresh — the repaired `createEnv`; the caches are the
-one channel by which an earlier call can reach a later one: `call_depends_on_earlier_failed_call`.) -/
-theorem call_determined_by_argument_values_partial (funcs : List Func) (depth fuel : Nat) (name : String) (vals : List Val)
+/-- **A call is a function of its argument values**: called with the same argument values (here: literals) from two arbitrary
+caller states that agree on printed output and remaining budget, a function returns the same, prints the same and costs the same —
+whatever the callers' variables are and whatever was called before (`funcs` is immutable, and every call builds its context afresh
+with `calleeInit`, error record included: the repaired `createEnv`). -/
+theorem call_determined_by_argument_values (funcs : List Func) (depth fuel : Nat) (name : String) (vals : List Val)
     (c c' : St) (f : Func)
     (hf : funcs.find? (fun f => f.name == name && f.params.length == vals.length) = some f)
     (hd : (depth == Gen.RECURSION_LIMIT) = false) (hfuel : vals.length < fuel)
-    (ho : c.out = c'.out) (hb : c.budget = c'.budget) (hk : c.ctxCache = c'.ctxCache) :
+    (ho : c.out = c'.out) (hb : c.budget = c'.budget) :
     (callFunc funcs depth (fuel + 1) name (vals.map Expr.lit) c).1 = (callFunc funcs depth (fuel + 1) name (vals.map Expr.lit) c').1 ∧
     (callFunc funcs depth (fuel + 1) name (vals.map Expr.lit) c).2.out = (callFunc funcs depth (fuel + 1) name (vals.map Expr.lit) c').2.out ∧
-    (callFunc funcs depth (fuel + 1) name (vals.map Expr.lit) c).2.budget = (callFunc funcs depth (fuel + 1) name (vals.map Expr.lit) c').2.budget ∧
-    (callFunc funcs depth (fuel + 1) name (vals.map Expr.lit) c).2.ctxCache = (callFunc funcs depth (fuel + 1) name (vals.map Expr.lit) c').2.ctxCache :=
-  call_independent_of_caller_partial funcs depth fuel name _ _ c (takeCtx f c) c' (takeCtx f c') f vals (by simpa using hf) rfl hd
-    (evalArgs_lits funcs depth vals fuel _ hfuel) (evalArgs_lits funcs depth vals fuel _ hfuel) ho hb (by rw [hk])
-    (by unfold takeCtx; simp only [hk])
+    (callFunc funcs depth (fuel + 1) name (vals.map Expr.lit) c).2.budget = (callFunc funcs depth (fuel + 1) name (vals.map Expr.lit) c').2.budget :=
+  call_independent_of_caller funcs depth fuel name _ _ c c c' c' f vals (by simpa using hf) rfl hd
+    (evalArgs_lits funcs depth vals fuel c hfuel) (evalArgs_lits funcs depth vals fuel c' hfuel) ho hb
+
+/-- **History independence**: whatever two statement lists `h1`, `h2` (any calls of any functions, failing ones included) ran before —
+from any states, with any outcomes —, the same call with the same argument values made afterwards gives the same result, provided
+the two runs left the same printed output and budget (the two process-wide parts of the state). No hypothesis on cached contexts. -/
+theorem call_independent_of_history (funcs : List Func) (depth fuel k : Nat) (name : String) (vals : List Val) (h1 h2 : List Stmt)
+    (c0 c0' : St) (f : Func)
+    (hf : funcs.find? (fun f => f.name == name && f.params.length == vals.length) = some f)
+    (hd : (depth == Gen.RECURSION_LIMIT) = false) (hfuel : vals.length < fuel)
+    (ho : (execList funcs depth k h1 c0).2.out = (execList funcs depth k h2 c0').2.out)
+    (hb : (execList funcs depth k h1 c0).2.budget = (execList funcs depth k h2 c0').2.budget) :
+    (callFunc funcs depth (fuel + 1) name (vals.map Expr.lit) (execList funcs depth k h1 c0).2).1 =
+      (callFunc funcs depth (fuel + 1) name (vals.map Expr.lit) (execList funcs depth k h2 c0').2).1 :=
+  (call_determined_by_argument_values funcs depth fuel name vals _ _ f hf hd hfuel ho hb).1
 
 /-- **The callee cannot modify the caller's variables**: after ANY call (any function, any arguments, any outcome incl. errors) the
 caller's variables, saved return value, running loops and own error record are exactly what the argument evaluation left; if the
@@ -156,7 +154,7 @@ theorem callee_cannot_modify_caller (funcs : List Func) (depth fuel : Nat) (name
     · have hd2 : depth = Gen.RECURSION_LIMIT := by simpa using hd
       rw [hd2, recursion_limit funcs fuel name _ c f hfind]; exact ⟨rfl, rfl, rfl, rfl⟩
     · have hd' : (depth == Gen.RECURSION_LIMIT) = false := by simpa using hd
-      rw [callFunc_unfold funcs depth fuel name _ c (takeCtx f c) f vals hfind hd' (evalArgs_lits funcs depth vals fuel _ hfuel)]
+      rw [callFunc_unfold funcs depth fuel name _ c c f vals hfind hd' (evalArgs_lits funcs depth vals fuel _ hfuel)]
       generalize execBlock funcs (depth + 1) fuel _ _ _ = r
       unfold finishCall
       cases r.1 <;> exact ⟨rfl, rfl, rfl, rfl⟩
@@ -183,9 +181,9 @@ theorem overloads_coexist (fs : List Func) (f g : Func) (hg : g ∈ fs) (hne : s
 /-- **Local variables start every call unset**: in the context a call starts in, every symbol that is not a parameter holds a
 null (the typed null of its declaration, `createChildRuntime`; an untyped null when the function never declares it) — whatever
 the caller holds under the same name and whatever any earlier call of the same function left behind. -/
-theorem locals_start_unset (f : Func) (vals : List Val) (rec0 : LastErr) (caller : St) (n : String) (hn : n ∉ f.params.map (·.1)) :
-    lookupVar (calleeInit f vals rec0 caller).vars n = lookupVar (f.decls.map fun (p : String × Ty) => (p.1, Val.null p.2)) n ∧
-    (lookupVar (calleeInit f vals rec0 caller).vars n).isNull = true := by
+theorem locals_start_unset (f : Func) (vals : List Val) (caller : St) (n : String) (hn : n ∉ f.params.map (·.1)) :
+    lookupVar (calleeInit f vals caller).vars n = lookupVar (f.decls.map fun (p : String × Ty) => (p.1, Val.null p.2)) n ∧
+    (lookupVar (calleeInit f vals caller).vars n).isNull = true := by
   have hn' : n ∉ (((f.params.map (·.1)).zip vals).map (·.1)) := by
     intro h
     apply hn
@@ -194,7 +192,7 @@ theorem locals_start_unset (f : Func) (vals : List Val) (rec0 : LastErr) (caller
     have := (List.of_mem_zip hab).1
     simp only [List.mem_map] at this
     exact this
-  have e : lookupVar (calleeInit f vals rec0 caller).vars n = lookupVar (f.decls.map fun (p : String × Ty) => (p.1, Val.null p.2)) n := by
+  have e : lookupVar (calleeInit f vals caller).vars n = lookupVar (f.decls.map fun (p : String × Ty) => (p.1, Val.null p.2)) n := by
     unfold calleeInit
     exact lookup_bind_other _ n hn' _
   exact ⟨e, by rw [e]; exact lookup_nulls_isNull f.decls n⟩
@@ -202,8 +200,8 @@ theorem locals_start_unset (f : Func) (vals : List Val) (rec0 : LastErr) (caller
 /-- **Arguments are received by copy** (single parameter shown; values are immutable in the model, so a copy is the value itself):
 the parameter holds the argument value in the callee; whatever the callee then does to it, the caller's variables are untouched
 (`caller_untouched`, `callee_cannot_modify_caller`). -/
-theorem argument_bound_by_value (f : Func) (p : String) (t : Ty) (v : Val) (rec0 : LastErr) (caller : St) (hp : f.params = [(p, t)]) :
-    lookupVar (calleeInit f [v] rec0 caller).vars p = v := by
+theorem argument_bound_by_value (f : Func) (p : String) (t : Ty) (v : Val) (caller : St) (hp : f.params = [(p, t)]) :
+    lookupVar (calleeInit f [v] caller).vars p = v := by
   unfold calleeInit
   rw [hp]
   simp only [List.map_cons, List.map_nil, List.zip_cons_cons, List.zip_nil_right, List.foldl_cons, List.foldl_nil]
@@ -246,9 +244,9 @@ theorem evalArgs_length (funcs : List Func) (depth : Nat) : ∀ (fuel : Nat) (ar
 /-- **Arguments are received by copy, n parameters**: with distinct parameter names (what the parser enforces) and one value per
 parameter (what `callFunc` guarantees: `evalArgs_length` + the arity test of `findDeclaration`; asserted in `createEnv`), the i-th
 parameter holds the i-th argument value when the callee starts — for every i, every number of parameters, every caller. -/
-theorem argument_bound_by_value_all (f : Func) (vals : List Val) (rec0 : LastErr) (caller : St)
+theorem argument_bound_by_value_all (f : Func) (vals : List Val) (caller : St)
     (hnd : (f.params.map (·.1)).Nodup) (hlen : vals.length = f.params.length) (i : Nat) (hi : i < f.params.length) :
-    lookupVar (calleeInit f vals rec0 caller).vars (f.params[i]).1 = vals[i]'(by omega) := by
+    lookupVar (calleeInit f vals caller).vars (f.params[i]).1 = vals[i]'(by omega) := by
   have hz : ((f.params.map (·.1)).zip vals).map (·.1) = f.params.map (·.1) :=
     List.map_fst_zip (by simp [hlen])
   have hmem : ((f.params[i]).1, vals[i]'(by omega)) ∈ (f.params.map (·.1)).zip vals := by
@@ -260,8 +258,8 @@ theorem argument_bound_by_value_all (f : Func) (vals : List Val) (rec0 : LastErr
 
 /-- two parameters, distinct names: the hypotheses of `argument_bound_by_value_all` are satisfiable and the conclusion is about both -/
 example : (let f : Func := { name := "f", params := [("a", Ty.int), ("b", Ty.str)], ret := Ty.int, body := [], catches := [] }
-    (lookupVar (calleeInit f [.int 4, .str [120]] LastErr.clear {}).vars "a" == .int 4,
-     lookupVar (calleeInit f [.int 4, .str [120]] LastErr.clear {}).vars "b" == .str [120])) = (true, true) := by decide +kernel
+    (lookupVar (calleeInit f [.int 4, .str [120]] {}).vars "a" == .int 4,
+     lookupVar (calleeInit f [.int 4, .str [120]] {}).vars "b" == .str [120])) = (true, true) := by decide +kernel
 
 /-- `function g(n) begin if n == 0 then return 0; end if; return g(n-1); end` -/
 def gFunc : Func :=
@@ -310,15 +308,15 @@ theorem direct_recursion_stops_at_limit (funcs : List Func) (name : String) (f :
     have e : 5 * (n + 1) + 1 + h = (5 * n + 1 + h) + 4 + 1 := by omega
     rw [e]
     have hf' : funcs.find? (fun g => g.name == name && g.params.length == ([] : List Expr).length) = some f := hf
-    rw [callFunc_unfold funcs d _ name [] s (takeCtx f s) f [] hf' hdl (evalArgs_nil funcs d _ _)]
-    have hbud : ((calleeInit f [] (cacheTake s.ctxCache f.key).1 (takeCtx f s)).budget == 0) = false := by
-      have : (calleeInit f [] (cacheTake s.ctxCache f.key).1 (takeCtx f s)).budget = s.budget := rfl
+    rw [callFunc_unfold funcs d _ name [] s s f [] hf' hdl (evalArgs_nil funcs d _ _)]
+    have hbud : ((calleeInit f [] s).budget == 0) = false := by
+      have : (calleeInit f [] s).budget = s.budget := rfl
       rw [this]; have : s.budget ≠ 0 := by omega
       simpa using this
     obtain ⟨ih1, ih2⟩ := ih (d + 1) (by omega) h
-      { (calleeInit f [] (cacheTake s.ctxCache f.key).1 (takeCtx f s)) with budget := s.budget - 1 } (by show n ≤ s.budget - 1; omega)
+      { (calleeInit f [] s) with budget := s.budget - 1 } (by show n ≤ s.budget - 1; omega)
     generalize hr : callFunc funcs (d + 1) (5 * n + 1 + h) name []
-      { (calleeInit f [] (cacheTake s.ctxCache f.key).1 (takeCtx f s)) with budget := s.budget - 1 } = r at ih1 ih2
+      { (calleeInit f [] s) with budget := s.budget - 1 } = r at ih1 ih2
     obtain ⟨r1, r2⟩ := r
     simp only at ih1 ih2
     subst ih1
@@ -327,14 +325,14 @@ theorem direct_recursion_stops_at_limit (funcs : List Func) (name : String) (f :
       intro cl _
       rw [BlocV.C07.uncatchable_reaches_host cl.1 _ [] (by decide) (by decide) (by decide)]
       simp
-    have hblock : execBlock funcs (d + 1) (5 * n + 1 + h + 4) f.body f.catches (calleeInit f [] (cacheTake s.ctxCache f.key).1 (takeCtx f s)) =
+    have hblock : execBlock funcs (d + 1) (5 * n + 1 + h + 4) f.body f.catches (calleeInit f [] s) =
         (.err Gen.EXC_RT_RECURSION_LIMIT [], r2) := by
-      have hx : exec funcs (d + 1) (5 * n + 1 + h + 2) (.returnS (some (.fcall name []))) (calleeInit f [] (cacheTake s.ctxCache f.key).1 (takeCtx f s)) =
+      have hx : exec funcs (d + 1) (5 * n + 1 + h + 2) (.returnS (some (.fcall name []))) (calleeInit f [] s) =
           (.err Gen.EXC_RT_RECURSION_LIMIT [], r2) := by
         have hr' : callFunc funcs (d + 1) (5 * n + 1 + h) name []
-            { (calleeInit f [] (cacheTake s.ctxCache f.key).1 (takeCtx f s)) with budget := (calleeInit f [] (cacheTake s.ctxCache f.key).1 (takeCtx f s)).budget - 1 } = (.err Gen.EXC_RT_RECURSION_LIMIT [], r2) := hr
+            { (calleeInit f [] s) with budget := (calleeInit f [] s).budget - 1 } = (.err Gen.EXC_RT_RECURSION_LIMIT [], r2) := hr
         simp only [exec, hbud, Bool.false_eq_true, if_false, bind_app, eval, hr']
-      have hl : execList funcs (d + 1) (5 * n + 1 + h + 3) [.returnS (some (.fcall name []))] (calleeInit f [] (cacheTake s.ctxCache f.key).1 (takeCtx f s)) =
+      have hl : execList funcs (d + 1) (5 * n + 1 + h + 3) [.returnS (some (.fcall name []))] (calleeInit f [] s) =
           (.err Gen.EXC_RT_RECURSION_LIMIT [], r2) := by
         simp only [execList, bind_app, hx]
       have hoof : (Gen.EXC_RT_RECURSION_LIMIT == oofCode) = false := by decide
@@ -370,21 +368,13 @@ def fErr : Func :=
     body := [.ifS [(some (.var "b"), [.beginS [.raiseS "E1"] [("E1", [.raiseS "E2"])]])], .returnS (some (.item .errorE 1))],
     catches := [], decls := [("b", Ty.bool)] }
 
-/-- **NEGATION of the full C08 statement at a witness** (the implementation does the same: finding
-C08.error_record_survives_in_cached_context). `print f(false); begin do f(true); exception when E2 then nop; end; print f(false);`
-prints an empty line and then `E1`: the second `f(false)` — same function, same argument value, same caller variables — returns what an
-EARLIER call left in the recycled context's error record (the `when E1` clause of that earlier call failed, so `docatch` kept the record,
-and `createEnv` does not clear it). Also stated on `callFunc` directly: two callers that agree on output and budget (and on everything
-else but the caches) get different results. -/
-theorem call_depends_on_earlier_failed_call :
+/-- **Regression witness of finding C08.error_record_survives_in_cached_context (fixed in e310d98)**:
+`print f(false); begin do f(true); exception when E2 then nop; end; print f(false);` prints two empty lines: the second `f(false)` —
+whose recycled context went through a failing `when E1` clause in the earlier call — starts with a clear record like the first. -/
+theorem history_witness_fixed :
     (execList [fErr] 0 40 [.printS [.fcall "f" [.lit (.bool false)]],
         .beginS [.doS (.fcall "f" [.lit (.bool true)])] [("E2", [.nop])],
-        .printS [.fcall "f" [.lit (.bool false)]]] {}).2.out = [[10], [69, 49], [10], []] ∧
-    (execList [fErr] 0 40 [.beginS [.doS (.fcall "f" [.lit (.bool true)])] [("E2", [.nop])]] {}).2.ctxCache = [(("f", 1), [(1, [69, 49])])] ∧
-    (match (callFunc [fErr] 0 20 "f" [.lit (.bool false)] {}).1 with | .ok (.str x) => x == [] | _ => false) = true ∧
-    (match (callFunc [fErr] 0 20 "f" [.lit (.bool false)] { ctxCache := [(("f", 1), [(1, [69, 49])])] }).1 with
-      | .ok (.str x) => x == [69, 49] | _ => false) = true := by
-  refine ⟨?_, ?_, ?_, ?_⟩ <;> decide +kernel
+        .printS [.fcall "f" [.lit (.bool false)]]] {}).2.out = [[10], [], [10], []] := by decide +kernel
 
 /-- overloads by argument count: `h(a)` and `h(a, b)` coexist and the call picks by arity -/
 example : (let h1 : Func := { name := "h", params := [("a", Ty.int)], ret := Ty.int, body := [.returnS (some (.lit (.int 1)))], catches := [] }
@@ -392,10 +382,10 @@ example : (let h1 : Func := { name := "h", params := [("a", Ty.int)], ret := Ty.
     let r := execList (addFunc (addFunc [] h1) h2) 0 40 [.printS [.fcall "h" [.lit (.int 0), .lit (.int 0)]], .printS [.fcall "h" [.lit (.int 0)]]] {}
     (r.1, r.2.out)) = (.ok .norm, [[10], [49], [10], [50]]) := by decide +kernel
 
-/-- the hypotheses of `call_determined_by_argument_values_partial` are satisfiable: two callers with different variables and own error records -/
+/-- the hypotheses of `call_determined_by_argument_values` are satisfiable: two callers with different variables and own error records -/
 example : (callFunc [fStale] 0 20 "f" [.lit (.bool true)] { vars := [("x", .int 5)] }).1 =
     (callFunc [fStale] 0 20 "f" [.lit (.bool true)] { vars := [("b", .str [1]), ("q", .int 9)], returned := some (.int 3), lastErr := (23, []) }).1 :=
-  (call_determined_by_argument_values_partial [fStale] 0 19 "f" [.bool true] { vars := [("x", .int 5)] }
-    { vars := [("b", .str [1]), ("q", .int 9)], returned := some (.int 3), lastErr := (23, []) } fStale (by with_unfolding_all rfl) (by decide) (by decide) rfl rfl rfl).1
+  (call_determined_by_argument_values [fStale] 0 19 "f" [.bool true] { vars := [("x", .int 5)] }
+    { vars := [("b", .str [1]), ("q", .int 9)], returned := some (.int 3), lastErr := (23, []) } fStale (by with_unfolding_all rfl) (by decide) (by decide) rfl rfl).1
 
 end BlocV.C08
